@@ -1,7 +1,8 @@
 (* C07 -- property theorems only. *)
 From Coq Require Import Reals.
 From Coquelicot Require Import Coquelicot.
-From WNTRV Require Import Lib.ExprR Gen.Formulas Lib.Spline C07.Model C07.Proofs.
+From Interval Require Import Tactic.
+From WNTRV Require Import Lib.ExprR Gen.Formulas Lib.Spline Lib.SplineMono C07.Model C07.Proofs C07.Mono.
 Local Open Scope R_scope.
 
 Theorem C07_pdd_zero_below : forall pmin pnom pexp p,
@@ -36,6 +37,23 @@ Theorem C07_pdd_monotone_partial : forall pmin pnom pexp p q,
   (q <= pmin \/ (pmin + delta < p /\ q <= pnom - delta) \/ pnom < p) ->
   pdd_frac pmin pnom pexp p <= pdd_frac pmin pnom pexp q.
 Proof. exact pdd_monotone_outside_bands_partial. Qed.
+(* ... and non-decreasing EVERYWHERE, the smoothing bands included, for every parameter set whose two cubics lie in the Fritsch-Carlson box
+   (end slopes between 0 and three times the secant slope of the band); the harness lets coqc prove `fc_box` for every generated parameter
+   set.  The general fact behind it: the interpolating cubic of cubic_spline is monotone under that condition (no calculus: Hermite form of
+   the derivative + exactness of Simpson's rule for cubics). *)
+Theorem C07_spline_monotone : forall x1 x2 f1 f2 df1 df2 x y, x1 < x2 ->
+  0 <= df1 <= 3 * ((f2 - f1) / (x2 - x1)) -> 0 <= df2 <= 3 * ((f2 - f1) / (x2 - x1)) -> x1 <= x -> x <= y -> y <= x2 ->
+  poly (cubic_spline x1 x2 f1 f2 df1 df2) x <= poly (cubic_spline x1 x2 f1 f2 df1 df2) y.
+Proof. exact spline_monotone. Qed.
+Theorem C07_pdd_monotone : forall pmin pnom pexp, 0 < pexp -> 2 * delta <= pnom - pmin -> fc_box pmin pnom pexp ->
+  forall p q, p <= q -> pdd_frac pmin pnom pexp p <= pdd_frac pmin pnom pexp q.
+Proof. exact pdd_monotone. Qed.
+(* the premise holds for ordinary parameter sets: Pmin 0, Preq 20 m, exponent 0.5; Pmin 3, Preq 25, exponent 1 *)
+Example C07_fc_box_typical : fc_box 0 20 (1 / 2) /\ fc_box 3 25 1.
+Proof.
+  split; unfold fc_box, sec1, sec2, m1, m2, f21, f12, slope, delta, c_pdd_slope, c_pdd_smoothing_delta;
+  repeat match goal with |- context[pw ?a ?b] => rewrite (pw_pos' a b) by interval end; repeat split; interval.
+Qed.
 (* overlapping bands (Preq - Pmin < 0.1 m, which includes the default options): the curve jumps by > 0.01 (known finding) *)
 Theorem C07_pdd_continuous_refuted_narrow :
   let pmin := 0 in let pnom := 7 / 100 in let pexp := 1 / 2 in let p := pmin + delta in
@@ -48,4 +66,6 @@ Print Assumptions C07_pdd_zero_below.
 Print Assumptions C07_pdd_C0_knots.
 Print Assumptions C07_power_branch_derivative.
 Print Assumptions C07_pdd_monotone_partial.
+Print Assumptions C07_spline_monotone.
+Print Assumptions C07_pdd_monotone.
 Print Assumptions C07_pdd_continuous_refuted_narrow.
